@@ -5,6 +5,21 @@ every order) EVERY permutation of the table's rows is generated: permutations th
 individual's rows contiguous must be accepted and give, per individual (matched by id), the
 plain-Python reference value (product over exactly its rows; inside MonteCarlo the mean over draws
 of that product with ONE draw series per individual); all other permutations must be refused.
+
+Later additions (all oracles are clauses of the statement):
+* formulas that are not additive over the observations of an individual (0.25 + trajectory) and formulas that
+  reach the trajectory operator through a catalog (selected member), evaluated like the others;
+* formulas with a data variable OUTSIDE the trajectory operator (written plainly, as the selected member of a
+  catalog, as a catalog factor, in nested catalogs, under MonteCarlo) handed to the model-level entry forms
+  (BIOGEME(expr), BIOGEME({'log_like': ..}), simulate, simulate after the selection was switched on a live
+  model): such a formula has no value "per individual", so the only outcomes compatible with the statement are a
+  refusal (BiogemeError) or a result that is the same for every order of the rows of every individual - the
+  outcomes over ALL contiguous permutations of one table are compared;
+* histories on one live BIOGEME object [evaluate, edit the table through the Database interface, evaluate ...]:
+  every sequence (depth <= 2) over {identifier column scaled by -1 / 2 / -0.5, a data column scaled, the rows of
+  the first / last individual removed}, after every step log likelihood, log likelihood with derivatives and
+  simulate (both observer orders) against the reference on the table as it is now;
+* panels with 4-5 individuals (sizes 1-4) in every order of the blocks.
 """
 from __future__ import annotations
 
@@ -20,14 +35,22 @@ LEVEL = 'exploration'
 TECHNIQUE = 'bounded exhaustive enumeration of panel compositions x id assignments x all row permutations on the real Database/engine vs a plain-Python product / mean-of-products reference'
 RULE = ('one case = one (composition, id assignment, row permutation) table: contiguous ones are evaluated for 5 formulas x 2 parameter points x '
         'R in {1,2,3} through get_value_c, BIOGEME.calculate_likelihood and simulate; non-contiguous ones must be refused. Non-trivial = at least two '
-        'individuals or an individual with >= 2 rows; distinct = distinct tables.')
+        'individuals or an individual with >= 2 rows; distinct = distinct tables. Further parts: (a) 8 formulas with a data variable outside the '
+        'trajectory operator (plain / through catalogs) x 4 model-level entry forms on every contiguous permutation, outcomes compared over all '
+        'orders of one table; (b) one case = one history of Database edits (scale_column on the identifier or a data column, remove an '
+        'individual; every sequence up to the depth bound) on one live BIOGEME object x observer order, observed after every step; '
+        '(c) panels of 4-5 individuals in every order of the blocks.')
 ASSUMPTIONS = [
     'draws come from deterministic user-defined generators (value = function of the individual position in the sorted id map and of the draw index), '
     'so "the same draw for all rows of an individual" is observable exactly',
     'values at grid points only',
+    'a formula with a data variable outside the trajectory operator is judged at the model-level entry forms only (BIOGEME(...), simulate): '
+    'refusal or one result for all row orders; nothing is demanded from the expression-level evaluator there (DESIGN 4, C12 scoping decision)',
+    'a catalog means its selected member (selection set on the catalog\'s own controller)',
 ]
 ANCHOR_FILES = ['src/biogeme/database.py', 'src/biogeme/biogeme.py', 'src/biogeme/expressions/unary_expressions.py',
-                'src/biogeme/expressions/calculator.py', 'src/biogeme/expressions/idmanager.py', 'src/biogeme/tools/database.py']
+                'src/biogeme/expressions/calculator.py', 'src/biogeme/expressions/idmanager.py', 'src/biogeme/tools/database.py',
+                'src/biogeme/expressions/multiple_expressions.py', 'src/biogeme/expressions/base_expressions.py']
 
 _SEED = int(os.environ.get('VERIF_SEED', '0') or 0)
 _POOLS = [
@@ -58,6 +81,74 @@ FORMULAS = {
     'mc_traj_logit': ('mc', ('traj', ('logit', V('c2'), ((1, U, None), (2, ('*', B('b2'), V('x2')), None))))),
     'mc_two_draws': ('mc', ('traj', ('exp', ('*', ('num', 0.25), ('+', U, ('*', V('x2'), ('draw', 'eta', 'DET_B'))))))),
 }
+_LOGIT = ('logit', V('c2'), ((1, ('*', B('b1'), V('x1')), None), (2, ('*', B('b2'), V('x2')), None)))
+
+
+def CAT(name, members, sel):
+    """Catalog node of the term language: ('cat', name, ((member name, term), ...), index of the selected member).
+    Its meaning is the meaning of the selected member (resolve())."""
+    return ('cat', name, tuple(members), sel)
+
+
+FORMULAS.update({
+    # not additive over the observations of an individual: log(0.25 + product) is not a sum over rows
+    'traj_nonadd': ('+', ('num', 0.25), ('traj', _LOGIT)),
+    # the trajectory operator reached through a catalog / a catalog inside the trajectory operator
+    'cat_inside': ('traj', ('exp', CAT('util', (('u1', ('*', B('b1'), V('x1'))), ('u2', ('*', B('b2'), V('x2')))), 1))),
+    'mc_cat_root': CAT('spec', (('plain', ('traj', ('exp', ('*', B('b1'), V('x1'))))),
+                                ('mixture', ('mc', ('traj', ('exp', ('*', ('num', 0.5), U)))))), 1),
+})
+# used by the live-model histories only (no logit inside: its audit dominates the cost of a model object)
+LIVE_ONLY = {'live_nonadd': ('+', ('num', 0.25), ('traj', ('exp', ('+', ('*', B('b1'), V('x1')), ('*', B('b2'), V('x2'))))))}
+# formulas in which the data variable x1 (positive in every pool) is OUTSIDE the trajectory operator
+_TR = ('traj', ('exp', ('*', B('b2'), V('x2'))))
+_OUT = ('*', V('x1'), _TR)
+_IN = ('traj', ('*', V('x1'), ('exp', ('*', B('b2'), V('x2')))))
+_OUT_MC = ('mc', ('*', V('x1'), ('traj', ('exp', ('*', ('num', 0.5), U)))))
+_IN_MC = ('mc', ('traj', ('*', V('x1'), ('exp', ('*', ('num', 0.5), U)))))
+MISPLACED = {
+    'plain': _OUT,
+    'catalog-member-first': CAT('spec', (('outside', _OUT), ('inside', _IN)), 0),
+    'catalog-member-second': CAT('spec', (('inside', _IN), ('outside', _OUT)), 1),
+    'catalog-factor': ('*', CAT('fac', (('one', ('num', 1.0)), ('y', V('x1'))), 1), _TR),
+    'nested-catalogs': CAT('outer', (('in', _IN), ('deep', CAT('inner', (('inside', _IN), ('outside', _OUT)), 1))), 1),
+    'catalog-under-log': ('exp', ('log', CAT('spec', (('inside', _IN), ('outside', _OUT)), 1))),
+    'mc-plain': _OUT_MC,
+    'mc-catalog': CAT('spec', (('inside', _IN_MC), ('outside', _OUT_MC)), 1),
+}
+# index of a well-formed selection of the outermost catalog (for the history [model, switch the selection, simulate])
+MISPLACED_GOOD_SELECTION = {'catalog-member-first': ('spec', 1), 'catalog-member-second': ('spec', 0), 'catalog-factor': ('fac', 0),
+                            'nested-catalogs': ('outer', 0), 'catalog-under-log': ('spec', 0), 'mc-catalog': ('spec', 0)}
+
+
+def resolve(t):
+    """Plain term meant by a term with catalogs: every catalog replaced by its selected member."""
+    if t[0] == 'cat':
+        return resolve(t[2][t[3]][1])
+    return R.map_children(t, resolve)
+
+
+class CBuilder(R.Builder):
+    """refsem.Builder + catalogs (biogeme.catalog.Catalog, selection set on the catalog's own controller AFTER the
+    catalog was made, so the default selection (first member) is not what is evaluated)."""
+
+    def __init__(self, betas):
+        super().__init__(betas)
+        self.catalogs = {}
+
+    def _build(self, t):
+        if t[0] != 'cat':
+            return super()._build(t)
+        from biogeme.catalog import Catalog
+        from biogeme.expressions import NamedExpression
+        cat = Catalog(t[1], [NamedExpression(name=nm, expression=self.build(m)) for nm, m in t[2]])
+        cat.controlled_by.set_index(t[3])
+        self.catalogs[t[1]] = cat
+        return cat
+
+
+def build(spec, t):
+    return CBuilder(spec).build(t)
 
 
 def det_a(k, r):
@@ -80,6 +171,30 @@ def compositions(tier):
     return out
 
 
+# five identifiers (the three of the seed's alphabet + two that interleave with them)
+IDS5 = IDS + [IDS[0] + 1, IDS[1] + 20]
+
+
+def block_compositions(tier):
+    """Panels with 4-5 individuals, sizes 1-4, sizes neither increasing nor decreasing along the sorted identifiers."""
+    if tier == 'quick':
+        return [(1, 2, 4, 2, 3), (2, 1, 1, 3)]
+    out = [c for c in itertools.product((1, 2, 3), repeat=4) if sum(c) <= 8]
+    return out + [(1, 2, 4, 2, 3), (3, 1, 4, 1, 2), (2, 4, 1, 3, 1)]
+
+
+def live_plan(tier):
+    """[(composition, formulas, observer orders, depth)] for the live-model histories."""
+    small = [c for c in compositions('quick') if sum(c) <= 3]
+    if tier == 'quick':
+        return [(c, ['live_nonadd', 'mc_traj'], [0, 1], 1) for c in small] + \
+               [(c, ['mc_traj'], [0], 2) for c in [(1, 2), (2, 1)]]
+    every = ['live_nonadd', 'mc_traj', 'traj_nonadd', 'mc_traj_logit', 'mc_two_draws', 'mc_cat_root']
+    return [(c, every, [0, 1], 1) for c in compositions('quick')] + \
+           [(c, ['live_nonadd', 'mc_traj'], [0, 1], 2) for c in small] + \
+           [(c, ['live_nonadd', 'mc_traj'], [0], 3) for c in [(1, 2), (2, 1), (1, 2, 1)]]
+
+
 def tasks(tier, seed):
     t = []
     for comp in compositions(tier):
@@ -89,14 +204,37 @@ def tasks(tier, seed):
         if n >= 2 and (tier == 'thorough' or sum(comp) <= 3):
             for ids in itertools.permutations(IDS_LARGE, n):
                 t.append(dict(comp=list(comp), ids=list(ids), tier=tier))
-    return t
+    live = []
+    for comp, formulas, orders, depth in live_plan(tier):
+        hs = [h for h in live_histories(depth) if len(h) == depth]
+        for ids in itertools.permutations(IDS, len(comp)):
+            for f in formulas:
+                for k in range(0, len(hs), 36):
+                    live.append(dict(part='live', comp=list(comp), ids=list(ids), tier=tier, formula=f, observer_orders=orders,
+                                     histories=hs[k:k + 36]))
+    blocks = []
+    for comp in block_compositions(tier):
+        n = len(comp)
+        orders = list(itertools.permutations(range(n)))
+        for k in range(0, len(orders), 6):
+            blocks.append(dict(part='blocks', comp=list(comp), ids=IDS5[:n], tier=tier, orders=[list(o) for o in orders[k:k + 6]]))
+    # simplest first; the cheap live histories are interleaved so that the long permutation tasks do not all end the run
+    return live[:len(live) // 2] + t + blocks + live[len(live) // 2:]
+
+
+def pool_value(col, k):
+    """Value of column ``col`` in the k-th row of the base table (the seed's pool, continued deterministically past its end)."""
+    v = POOL[col][k % 6]
+    if col == 'c2' or k < 6:
+        return float(v)
+    return float(v) * 0.5 + 0.125 * (k // 6)
 
 
 def base_rows(comp, ids):
     rows, k = [], 0
     for cnt, idv in zip(comp, ids):
         for _ in range(cnt):
-            rows.append(dict(x1=POOL['x1'][k], x2=POOL['x2'][k], c2=float(POOL['c2'][k]), id=float(idv)))
+            rows.append(dict(x1=pool_value('x1', k), x2=pool_value('x2', k), c2=pool_value('c2', k), id=float(idv)))
             k += 1
     return rows
 
@@ -114,12 +252,13 @@ def contiguous(seq):
 
 def reference(formula, rows, params, Rn):
     """{id: value} per individual: sorted-id position k selects the draw series."""
+    plain = resolve(formula)
     ids_sorted = sorted({r['id'] for r in rows})
     out = {}
     for k, idv in enumerate(ids_sorted):
         mine = [r for r in rows if r['id'] == idv]
         draws = {'xi': [det_a(k, r) for r in range(Rn)], 'eta': [det_b(k, r) for r in range(Rn)]}
-        out[idv] = R.evaluate(formula, row=mine[0], params=params, draws=draws, rows=mine)
+        out[idv] = R.evaluate(plain, row=mine[0], params=params, draws=draws, rows=mine)
     return out
 
 
@@ -149,10 +288,50 @@ def make_panel_db(rows, log, index_mode=0):
 
 
 def run_task(task):
-    import numpy as np
-    from biogeme.exceptions import BiogemeError
-    from vf.engine import make_biogeme
+    part = task.get('part', 'perms')
+    if part == 'live':
+        rec = Rec()
+        _live_history(task, rec)
+        return rec.result()
+    if part == 'blocks':
+        return _run_blocks(task)
+    return _run_perms(task)
 
+
+def _run_blocks(task):
+    """Panels with more individuals: every order of the blocks in the table (rows of an individual in the given order for
+    even-numbered orders, reversed for odd-numbered ones)."""
+    rec = Rec()
+    comp, ids, tier = task['comp'], task['ids'], task['tier']
+    rows0 = base_rows(comp, ids)
+    by_ind, k = [], 0
+    for cnt in comp:
+        by_ind.append(rows0[k:k + cnt])
+        k += cnt
+    Rs = (2,)
+    formulas = ['traj_logit', 'traj_nonadd', 'mc_traj', 'mc_cat_root'] if tier == 'quick' else list(FORMULAS)
+    refs = _references(formulas, rows0, Rs)
+    for order in task['orders']:
+        flip = sum(order[:2]) % 2
+        rows = [r for i in order for r in (by_ind[i][::-1] if flip else by_ind[i])]
+        case = dict(part='blocks', comp=comp, ids=ids, tier=tier, orders=[order])
+        key = ('blocks', tuple(comp), tuple(ids), tuple(order))
+        if not _check_table(rec, rows, len(comp), refs, key, case, f'[comp={comp} ids={ids} block order={order} reversed rows={flip}]',
+                            formulas, Rs, index_mode=flip, tag=tuple(order)):
+            break
+    return rec.result()
+
+
+def _references(formulas, rows0, Rs):
+    refs = {}
+    for fname in formulas:
+        for pi, p in enumerate(PARAMS):
+            for Rn in Rs:
+                refs[(fname, pi, Rn)] = reference(FORMULAS[fname], rows0, p, Rn)
+    return refs
+
+
+def _run_perms(task):
     rec = Rec()
     comp, ids, tier = task['comp'], task['ids'], task['tier']
     _edit_history(task, rec)
@@ -161,119 +340,318 @@ def run_task(task):
     rows0 = base_rows(comp, ids)
     n = len(rows0)
     nind = len(comp)
-    spec = {nm: (v, None, None, 0) for nm, v in PARAMS[0].items()}
     Rs = (2,) if tier == 'quick' else (1, 2, 3)
     nontrivial = nind >= 2 or max(comp) >= 2
     rec.sample(dict(composition=comp, ids=ids, permutations=math.factorial(n)))
-    refs = {}
-    for fname, formula in FORMULAS.items():
-        for pi, p in enumerate(PARAMS):
-            for Rn in Rs:
-                refs[(fname, pi, Rn)] = reference(formula, rows0, p, Rn)
+    refs = _references(FORMULAS, rows0, Rs)
+    misplaced = {}
 
     for perm in itertools.permutations(range(n)):
         rows = [rows0[i] for i in perm]
-        idseq = [r['id'] for r in rows]
         case = dict(comp=comp, ids=ids, perm=list(perm), tier=tier)
         key = ('table', tuple(comp), tuple(ids), perm) if nontrivial else None
+        if not _check_table(rec, rows, nind, refs, key, case, f'[comp={comp} ids={ids} perm={perm}]', list(FORMULAS), Rs,
+                            index_mode=sum(perm[:2]) % 2, misplaced=misplaced, tag=perm):
+            return rec.result()
+    _judge_misplaced(rec, misplaced, dict(comp=comp, ids=ids, tier=tier), f'[comp={comp} ids={ids}]', varied=max(comp) >= 2)
+    return rec.result()
 
-        def bad(clause, what, **kw):
-            rec.violation(f'C09|{clause}|{kw.pop("where", "panel")}', what + f' [comp={comp} ids={ids} perm={perm}]', dict(case, **kw))
 
-        log = []
-        db = make_panel_db(rows, log, index_mode=sum(perm[:2]) % 2)
-        if not contiguous(idseq):
-            try:
-                db.panel('id')
-                rec.case(key, (comp, ids, perm, 'accepted-noncontiguous'), outcome='noncontiguous-accepted')
-                bad('non-contiguous-panel-accepted', f'id sequence {idseq} accepted by Database.panel')
-            except BiogemeError:
-                rec.case(key, (comp, ids, perm, 'refused'), outcome='noncontiguous-refused')
-            except Exception as e:
-                rec.case(key, (comp, ids, perm, type(e).__name__), outcome='noncontiguous-other-error')
-                bad(f'non-contiguous-panel-wrong-error-{type(e).__name__}', str(e)[:200])
-            continue
+def _check_table(rec, rows, nind, refs, key, case, label, formulas, Rs, index_mode=0, misplaced=None, tag=None):
+    """All clauses for ONE table (list of row dicts in the order of the table).  False = the worker must be retired."""
+    import numpy as np
+    from biogeme.exceptions import BiogemeError
+    from vf.engine import make_biogeme
+
+    spec = {nm: (v, None, None, 0) for nm, v in PARAMS[0].items()}
+    n = len(rows)
+    idseq = [r['id'] for r in rows]
+    shape = (case.get('comp'), case.get('ids'), tag)
+
+    def bad(clause, what, **kw):
+        rec.violation(f'C09|{clause}|{kw.pop("where", "panel")}', what + ' ' + label, dict(case, **kw))
+
+    log = []
+    db = make_panel_db(rows, log, index_mode=index_mode)
+    if not contiguous(idseq):
         try:
             db.panel('id')
+            rec.case(key, shape + ('accepted-noncontiguous',), outcome='noncontiguous-accepted')
+            bad('non-contiguous-panel-accepted', f'id sequence {idseq} accepted by Database.panel')
+        except BiogemeError:
+            rec.case(key, shape + ('refused',), outcome='noncontiguous-refused')
         except Exception as e:
-            rec.case(key, (comp, ids, perm, 'raised'), outcome='contiguous-refused')
-            bad(f'contiguous-panel-refused-{type(e).__name__}', f'id sequence {idseq}: {str(e)[:200]}')
-            continue
-        # structure of the individual map
-        imap = db.individualMap
-        blocks = {float(i): (int(imap.loc[i][0]), int(imap.loc[i][1])) for i in imap.index}
-        data_ids = [float(v) for v in db.data['id']]
-        okmap = sorted(blocks) == sorted(set(idseq)) and db.get_sample_size() == nind
-        covered = []
-        for i, (lo, hi) in blocks.items():
-            okmap = okmap and all(data_ids[j] == i for j in range(lo, hi + 1)) and hi - lo + 1 == idseq.count(i)
-            covered += list(range(lo, hi + 1))
-        okmap = okmap and sorted(covered) == list(range(n))
-        rec.case(key, (comp, ids, perm, sorted(blocks.items())), outcome=('contiguous', nind))
-        if not okmap:
-            bad('individual-map-not-a-partition-into-contiguous-blocks', f'map={blocks} ids in data={data_ids} sample size={db.get_sample_size()}')
-            continue
-        order = [float(i) for i in imap.index]
-        for fname, formula in FORMULAS.items():
-            has_draws = bool(R.leaves(formula, 'draw'))
-            for pi, p in enumerate(PARAMS):
-                for Rn in Rs:
-                    if not has_draws and Rn != Rs[0]:
-                        continue
-                    want = refs[(fname, pi, Rn)]
-                    kw = dict(formula=fname, point=pi, R=Rn)
-                    # expression-level entry point
-                    try:
-                        del log[:]
-                        expr = R.Builder(spec).build(formula)
-                        got = [float(v) for v in expr.get_value_c(database=db, betas=dict(p), number_of_draws=Rn,
-                                                                  prepare_ids=True)]
-                    except Exception as e:
-                        bad(f'raised-{type(e).__name__}', f'{fname}: {str(e)[:200]}', where='get_value_c', **kw)
-                        rec.retire = True
-                        return rec.result()
-                    rec.case((key, fname, pi, Rn) if key else None, (fname, pi, Rn, [round(v, 10) for v in got]), outcome=('value', fname))
-                    if len(got) != nind:
-                        bad('one-value-per-individual', f'{fname}: {len(got)} values for {nind} individuals', where='get_value_c', **kw)
-                        continue
-                    if any(not close(g, want[i]) for g, i in zip(got, order)):
-                        bad('trajectory-value', f'{fname} R={Rn} point={pi}: {dict(zip(order, got))} expected {want}',
-                            where='get_value_c:' + fname, **kw)
-                    if has_draws:
-                        if any(sz != nind for _, sz, _ in log) or not log:
-                            bad('draws-not-dimensioned-by-individuals', f'{fname}: generators called with {log}, individuals={nind}',
-                                where='generate_draws', **kw)
-                        if db.theDraws.shape[0] != nind or db.theDraws.shape[1] != Rn:
-                            bad('draw-table-shape', f'{db.theDraws.shape} for {nind} individuals, R={Rn}', where='generate_draws', **kw)
-            # BIOGEME: log likelihood = sum over individuals of log(trajectory); simulate is per individual
-            for pi, p in enumerate(PARAMS):
-                Rn = Rs[-1]
+            rec.case(key, shape + (type(e).__name__,), outcome='noncontiguous-other-error')
+            bad(f'non-contiguous-panel-wrong-error-{type(e).__name__}', str(e)[:200])
+        return True
+    try:
+        db.panel('id')
+    except Exception as e:
+        rec.case(key, shape + ('raised',), outcome='contiguous-refused')
+        bad(f'contiguous-panel-refused-{type(e).__name__}', f'id sequence {idseq}: {str(e)[:200]}')
+        return True
+    # structure of the individual map
+    imap = db.individualMap
+    blocks = {float(i): (int(imap.loc[i][0]), int(imap.loc[i][1])) for i in imap.index}
+    data_ids = [float(v) for v in db.data['id']]
+    okmap = sorted(blocks) == sorted(set(idseq)) and db.get_sample_size() == nind
+    covered = []
+    for i, (lo, hi) in blocks.items():
+        okmap = okmap and all(data_ids[j] == i for j in range(lo, hi + 1)) and hi - lo + 1 == idseq.count(i)
+        covered += list(range(lo, hi + 1))
+    okmap = okmap and sorted(covered) == list(range(n))
+    rec.case(key, shape + (sorted(blocks.items()),), outcome=('contiguous', nind))
+    if not okmap:
+        bad('individual-map-not-a-partition-into-contiguous-blocks', f'map={blocks} ids in data={data_ids} sample size={db.get_sample_size()}')
+        return True
+    order = [float(i) for i in imap.index]
+    for fname in formulas:
+        formula = FORMULAS[fname]
+        has_draws = bool(R.leaves(resolve(formula), 'draw'))
+        for pi, p in enumerate(PARAMS):
+            for Rn in Rs:
+                if not has_draws and Rn != Rs[0]:
+                    continue
                 want = refs[(fname, pi, Rn)]
                 kw = dict(formula=fname, point=pi, R=Rn)
+                # expression-level entry point
                 try:
-                    ll_expr = R.Builder(spec).build(('log', formula))
-                    b = make_biogeme(db, ll_expr, number_of_draws=Rn)
-                    names = list(b.free_beta_names)
-                    x = np.array([p[nm] for nm in names], dtype=float)
-                    ll = float(b.calculate_likelihood(x, scaled=False))
-                    lls = float(b.calculate_likelihood(x, scaled=True))
-                    bs = make_biogeme(db, {'v': R.Builder(spec).build(formula)}, number_of_draws=Rn)
-                    sim = bs.simulate({nm: p[nm] for nm in bs.free_beta_names})
+                    del log[:]
+                    expr = build(spec, formula)
+                    got = [float(v) for v in expr.get_value_c(database=db, betas=dict(p), number_of_draws=Rn,
+                                                              prepare_ids=True)]
                 except Exception as e:
-                    bad(f'raised-{type(e).__name__}', f'{fname}: {str(e)[:200]}', where='BIOGEME', **kw)
+                    bad(f'raised-{type(e).__name__}', f'{fname}: {str(e)[:200]}', where='get_value_c', **kw)
                     rec.retire = True
-                    return rec.result()
-                rec.case((key, fname, pi, 'biogeme') if key else None, (fname, pi, round(ll, 9)), outcome=('biogeme', fname))
-                want_ll = sum(math.log(v) for v in want.values())
-                if not close(ll, want_ll, 1e-9):
-                    bad('log-likelihood-not-sum-over-individuals', f'{fname}: LL={ll!r} expected {want_ll!r}', where='BIOGEME:' + fname, **kw)
-                if not close(lls, ll / nind, 1e-12):
-                    bad('scaled-likelihood-not-divided-by-number-of-individuals', f'{fname}: scaled={lls!r} LL={ll!r} individuals={nind}',
-                        where='BIOGEME', **kw)
-                simd = {float(i): float(v) for i, v in zip(sim.index, sim['v'])}
-                if sorted(simd) != sorted(want) or any(not close(simd[i], want[i]) for i in want):
-                    bad('simulate-per-individual', f'{fname}: simulate={simd} expected {want}', where='simulate:' + fname, **kw)
-    return rec.result()
+                    return False
+                rec.case((key, fname, pi, Rn) if key else None, (fname, pi, Rn, [round(v, 10) for v in got]), outcome=('value', fname))
+                if len(got) != nind:
+                    bad('one-value-per-individual', f'{fname}: {len(got)} values for {nind} individuals', where='get_value_c', **kw)
+                    continue
+                if any(not close(g, want[i]) for g, i in zip(got, order)):
+                    bad('trajectory-value', f'{fname} R={Rn} point={pi}: {dict(zip(order, got))} expected {want}',
+                        where='get_value_c:' + fname, **kw)
+                if has_draws:
+                    if any(sz != nind for _, sz, _ in log) or not log:
+                        bad('draws-not-dimensioned-by-individuals', f'{fname}: generators called with {log}, individuals={nind}',
+                            where='generate_draws', **kw)
+                    if db.theDraws.shape[0] != nind or db.theDraws.shape[1] != Rn:
+                        bad('draw-table-shape', f'{db.theDraws.shape} for {nind} individuals, R={Rn}', where='generate_draws', **kw)
+        # BIOGEME: log likelihood = sum over individuals of log(trajectory); simulate is per individual
+        for pi, p in enumerate(PARAMS):
+            Rn = Rs[-1]
+            want = refs[(fname, pi, Rn)]
+            kw = dict(formula=fname, point=pi, R=Rn)
+            try:
+                ll_expr = build(spec, ('log', formula))
+                b = make_biogeme(db, ll_expr, number_of_draws=Rn)
+                names = list(b.free_beta_names)
+                x = np.array([p[nm] for nm in names], dtype=float)
+                ll = float(b.calculate_likelihood(x, scaled=False))
+                lls = float(b.calculate_likelihood(x, scaled=True))
+                bs = make_biogeme(db, {'v': build(spec, formula)}, number_of_draws=Rn)
+                sim = bs.simulate({nm: p[nm] for nm in bs.free_beta_names})
+            except Exception as e:
+                bad(f'raised-{type(e).__name__}', f'{fname}: {str(e)[:200]}', where='BIOGEME', **kw)
+                rec.retire = True
+                return False
+            rec.case((key, fname, pi, 'biogeme') if key else None, (fname, pi, round(ll, 9)), outcome=('biogeme', fname))
+            want_ll = sum(math.log(v) for v in want.values())
+            if not close(ll, want_ll, 1e-9):
+                bad('log-likelihood-not-sum-over-individuals', f'{fname}: LL={ll!r} expected {want_ll!r}', where='BIOGEME:' + fname, **kw)
+            if not close(lls, ll / nind, 1e-12):
+                bad('scaled-likelihood-not-divided-by-number-of-individuals', f'{fname}: scaled={lls!r} LL={ll!r} individuals={nind}',
+                    where='BIOGEME', **kw)
+            simd = {float(i): float(v) for i, v in zip(sim.index, sim['v'])}
+            if sorted(simd) != sorted(want) or any(not close(simd[i], want[i]) for i in want):
+                bad('simulate-per-individual', f'{fname}: simulate={simd} expected {want}', where='simulate:' + fname, **kw)
+    if misplaced is not None:
+        return _observe_misplaced(rec, db, misplaced, tag, key, case, label)
+    return True
+
+
+# ----------------------------------------------------------------------------- a data variable outside the trajectory operator
+ENTRY_FORMS = ('BIOGEME(expr)', 'BIOGEME(dict)', 'simulate', 'switch-selection-then-simulate')
+
+
+def _observe_misplaced(rec, db, store, tag, key, case, label):
+    """Hands every formula of MISPLACED to every model-level entry form on the panel table ``db`` and stores the outcome
+    ('refused',) or ('value', {id or 'LL': number}) under store[(formula, entry form)] -> [(tag, outcome)]."""
+    import numpy as np
+    from biogeme.exceptions import BiogemeError
+    from vf.engine import make_biogeme
+
+    spec = {nm: (v, None, None, 0) for nm, v in PARAMS[0].items()}
+    p = PARAMS[1]
+    Rn = 2
+    for mname, formula in MISPLACED.items():
+        for entry in ENTRY_FORMS:
+            if entry == 'switch-selection-then-simulate' and mname not in MISPLACED_GOOD_SELECTION:
+                continue
+            try:
+                if entry in ('BIOGEME(expr)', 'BIOGEME(dict)'):
+                    e = build(spec, ('log', formula))
+                    b = make_biogeme(db, e if entry == 'BIOGEME(expr)' else {'log_like': e}, number_of_draws=Rn)
+                    x = np.array([p[nm] for nm in b.free_beta_names], dtype=float)
+                    out = ('value', {'LL': float(b.calculate_likelihood(x, scaled=False))})
+                else:
+                    bld = CBuilder(spec)
+                    e = bld.build(formula)
+                    if entry == 'simulate':
+                        b = make_biogeme(db, {'v': e}, number_of_draws=Rn)
+                    else:
+                        cname, good = MISPLACED_GOOD_SELECTION[mname]
+                        bad_index = bld.catalogs[cname].controlled_by.current_index
+                        bld.catalogs[cname].controlled_by.set_index(good)
+                        b = make_biogeme(db, {'v': e}, number_of_draws=Rn)
+                        b.simulate({nm: p[nm] for nm in b.free_beta_names})
+                        bld.catalogs[cname].controlled_by.set_index(bad_index)
+                    sim = b.simulate({nm: p[nm] for nm in b.free_beta_names})
+                    out = ('value', {float(i): float(v) for i, v in zip(sim.index, sim['v'])})
+            except BiogemeError:
+                out = ('refused',)
+            except Exception as e:
+                rec.case((key, 'misplaced', mname, entry) if key else None, (mname, entry, type(e).__name__), outcome=('misplaced', 'error'))
+                rec.violation(f'C09|variable-outside-trajectory-raised-{type(e).__name__}|{entry}:{mname}',
+                              f'{mname} through {entry}: {str(e)[:200]} ' + label, dict(case, formula=mname, entry=entry))
+                rec.retire = True
+                return False
+            rec.case((key, 'misplaced', mname, entry) if key else None,
+                     (mname, entry, out[0], sorted((str(k), round(v, 10)) for k, v in out[1].items()) if len(out) > 1 else None),
+                     outcome=('misplaced', out[0]))
+            store.setdefault((mname, entry), []).append((tag, out))
+    return True
+
+
+def _same_outcome(a, b):
+    if a[0] != b[0]:
+        return False
+    if a[0] == 'refused':
+        return True
+    return sorted(a[1], key=str) == sorted(b[1], key=str) and all(close(a[1][k], b[1][k]) or (a[1][k] != a[1][k] and b[1][k] != b[1][k])
+                                                                   for k in a[1])
+
+
+def _judge_misplaced(rec, store, case, label, varied):
+    """The result must not depend on the order of the individuals or of the rows of one individual: over all tables that
+    are orders of the same rows the outcome (refusal, or the numbers per individual) must be one and the same."""
+    for (mname, entry), obs in store.items():
+        first_tag, first = obs[0]
+        for tag, out in obs[1:]:
+            if not _same_outcome(first, out):
+                rec.violation(f'C09|result-depends-on-the-order-of-the-rows-of-an-individual|{entry}:{mname}',
+                              f'formula {mname} (data variable outside the trajectory operator) through {entry}: table order {first_tag} '
+                              f'gives {first}, table order {tag} gives {out} {label}',
+                              dict(case, formula=mname, entry=entry, orders=[list(first_tag), list(tag)]),
+                              expected='a refusal, or one result for every order of the rows', observed=[first, out])
+                break
+        if varied:
+            rec.count('misplaced_formula_compared_over_row_orders')
+        else:
+            rec.count('misplaced_formula_single_row_individuals_only')
+
+
+# ----------------------------------------------------------------------------- one live model, table edited through the Database interface
+EDITS = [('scale', 'id', -1.0), ('scale', 'id', 2.0), ('scale', 'id', -0.5), ('scale', 'x1', 0.5), ('remove', 'first'), ('remove', 'last')]
+OBSERVER_ORDERS = [('calculate_likelihood', 'calculate_likelihood_and_derivatives', 'simulate'),
+                   ('simulate', 'calculate_likelihood_and_derivatives', 'calculate_likelihood')]
+
+
+def edit_name(e):
+    return f'scale_column({e[1]},{e[2]:g})' if e[0] == 'scale' else f'remove({e[1]}-individual)'
+
+
+def live_histories(depth):
+    out = []
+    for d in range(1, depth + 1):
+        out += [list(h) for h in itertools.product(range(len(EDITS)), repeat=d)]
+    return out
+
+
+def _live_history(task, rec):
+    """Histories [model on panel data, observe, edit through the Database interface, observe, edit, observe] on ONE
+    BIOGEME object holding {'log_like': log(f), 'v': f}: after every step the log likelihood (plain, scaled, with
+    derivatives) and simulate must be those of the table as it is now - products over exactly the rows of each individual,
+    one draw series per individual, sample size = number of individuals."""
+    import numpy as np
+    import biogeme.expressions as ex
+    from vf.engine import make_biogeme
+
+    comp, ids, fname = task['comp'], task['ids'], task['formula']
+    formula = FORMULAS[fname] if fname in FORMULAS else LIVE_ONLY[fname]
+    spec = {nm: (v, None, None, 0) for nm, v in PARAMS[0].items()}
+    p = PARAMS[1]
+    Rn = 2
+    for oi in task['observer_orders']:
+        for hist in task['histories']:
+            rows = [dict(r) for r in base_rows(comp, ids)]
+            case = dict(part='live', comp=comp, ids=ids, tier=task['tier'], formula=fname, observer_orders=[oi], histories=[hist])
+            hname = '>'.join(edit_name(EDITS[i]) for i in hist)
+            ckey = ('live', tuple(comp), tuple(ids), fname, oi, tuple(hist))
+            done = 'start'
+            try:
+                db = make_panel_db(rows, [])
+                db.panel('id')
+                b = make_biogeme(db, {'log_like': build(spec, ('log', formula)), 'v': build(spec, formula)}, number_of_draws=Rn)
+                x = np.array([p[nm] for nm in b.free_beta_names], dtype=float)
+                pdict = {nm: p[nm] for nm in b.free_beta_names}
+                trace = []
+                ids_before = None
+                for step in [None] + list(hist):
+                    if step is not None:
+                        e = EDITS[step]
+                        if e[0] == 'scale':
+                            db.scale_column(e[1], e[2])
+                            for r in rows:
+                                r[e[1]] = r[e[1]] * e[2]
+                        else:
+                            present = sorted({r['id'] for r in rows})
+                            if len(present) < 2:
+                                rec.count('live_history_cut_no_individual_would_remain')
+                                break
+                            gone = present[0] if e[1] == 'first' else present[-1]
+                            db.remove(ex.Variable('id') == gone)
+                            rows = [r for r in rows if r['id'] != gone]
+                        done = edit_name(e)
+                    want = reference(formula, rows, p, Rn)
+                    want_ll = sum(math.log(v) for v in want.values())
+                    stale_ids, ids_before = ids_before, sorted(want)
+                    for obs in OBSERVER_ORDERS[oi]:
+                        if obs == 'calculate_likelihood':
+                            ll = float(b.calculate_likelihood(x, scaled=False))
+                            lls = float(b.calculate_likelihood(x, scaled=True))
+                            ok = close(ll, want_ll, 1e-9) and close(lls * len(want), want_ll, 1e-9) and db.get_sample_size() == len(want)
+                            got = dict(LL=ll, scaled=lls, sample_size=db.get_sample_size())
+                            exp = dict(LL=want_ll, scaled=want_ll / len(want), sample_size=len(want))
+                        elif obs == 'calculate_likelihood_and_derivatives':
+                            ll = float(b.calculate_likelihood_and_derivatives(x, scaled=False).function)
+                            ok = close(ll, want_ll, 1e-9)
+                            got, exp = dict(LL=ll), dict(LL=want_ll)
+                        else:
+                            sim = b.simulate(pdict)
+                            got = {float(i): float(v) for i, v in zip(sim.index, sim['v'])}
+                            exp = want
+                            ok = sorted(got) == sorted(want) and all(close(got[i], want[i]) for i in want)
+                        trace.append((done, obs, sorted((str(k), round(float(v), 9)) for k, v in got.items())))
+                        if not ok and obs == 'simulate' and stale_ids is not None and [float(i) for i in sim.index] == stale_ids \
+                                and len(want) == len(stale_ids) and stale_ids != sorted(want) \
+                                and all(close(float(v), want[i]) for v, i in zip(sim['v'], sorted(want))):
+                            # one root cause, one key: the values are those of the individuals of the table as it is now, in their
+                            # order, but they are labelled with the identifiers the individuals had before the edit
+                            rec.violation('C09|simulate-attributes-values-to-stale-individual-identifiers|history=[model,scale_column(id),simulate]',
+                                          f'{fname}, history [{hname}], observers {OBSERVER_ORDERS[oi]}: after {done} simulate gives {got}, '
+                                          f'expected {exp} [comp={comp} ids={ids}]', case, expected=exp, observed=got)
+                        elif not ok:
+                            rec.violation(f'C09|live-model-not-following-the-table-after-database-edit|{obs}:after={done}',
+                                          f'{fname}, history [{hname}], observers {OBSERVER_ORDERS[oi]}: after {done} {obs} gives {got}, '
+                                          f'expected {exp} [comp={comp} ids={ids}]', case, expected=exp, observed=got)
+            except Exception as e:
+                rec.case(ckey, ('raised', type(e).__name__, done), outcome=('live', 'raised'))
+                rec.violation(f'C09|live-model-after-database-edit-raised-{type(e).__name__}|after={done}',
+                              f'{fname}, history [{hname}] on comp={comp} ids={ids}: {str(e)[:200]}', case)
+                rec.retire = True
+                return
+            rec.case(ckey, trace, outcome=('live', len(hist), len({r['id'] for r in rows})))
 
 
 def _edit_history(task, rec):
@@ -308,10 +686,10 @@ def _edit_history(task, rec):
             formula = FORMULAS[fname]
             case = dict(part='edit', comp=comp, ids=ids, tier=task['tier'], edit=edit, formula=fname)
             try:
-                expr = R.Builder(spec).build(formula)
+                expr = build(spec, formula)
                 expr.get_value_c(database=db, betas=dict(p), number_of_draws=Rn, prepare_ids=True)   # establishes the map
                 db.data = pd.DataFrame({c: [r[c] for r in rows1] for c in COLS})
-                got = [float(v) for v in R.Builder(spec).build(formula).get_value_c(database=db, betas=dict(p), number_of_draws=Rn,
+                got = [float(v) for v in build(spec, formula).get_value_c(database=db, betas=dict(p), number_of_draws=Rn,
                                                                                      prepare_ids=True)]
                 order = [float(i) for i in db.individualMap.index]
                 ssize = db.get_sample_size()
@@ -335,6 +713,12 @@ def replay(case):
         rec = Rec()
         _edit_history(case, rec)
         return rec.violations
+    if case.get('part') in ('live', 'blocks'):
+        return run_task(case)['violations']
     full = run_task(dict(comp=case['comp'], ids=case['ids'], tier=case['tier']))
-    vs = [v for v in full['violations'] if v['case'].get('perm') == case.get('perm')]
+    if 'orders' in case:
+        vs = [v for v in full['violations'] if v['case'].get('formula') == case.get('formula') and v['case'].get('entry') == case.get('entry')
+              and 'orders' in v['case']]
+    else:
+        vs = [v for v in full['violations'] if v['case'].get('perm') == case.get('perm')]
     return vs or full['violations']
